@@ -5,6 +5,8 @@ CONSTANTS
   FixLeave = FALSE
   FixWrap = FALSE
   MaxTry = 2
+  TrackCov = FALSE
+  Goal = "none"
   MCLayout <- LayR4
   InitMembers = {1, 3, 4}
   Joiners = {2}
